@@ -67,15 +67,43 @@ fn input_bytes(cmd: &Value) -> Vec<u8> {
 }
 
 /// write the handle's model, log the bytes and what parsing them gives
-fn write_and_reparse(m: &MDL, log_bytes: bool) -> Value {
-    let w = guarded(|| value(opt(m.write_to_buffer(), |b| bytes(&b))));
+fn same_vertex(a: &Vertex, b: &Vertex) -> bool {
+    let fa: Vec<u32> = a.position.iter().chain(a.uv0.iter()).chain(a.uv1.iter()).chain(a.normal.iter())
+        .chain(a.bitangent.iter()).chain(a.color.iter()).chain(a.bone_weight.iter()).map(|x| x.to_bits()).collect();
+    let fb: Vec<u32> = b.position.iter().chain(b.uv0.iter()).chain(b.uv1.iter()).chain(b.normal.iter())
+        .chain(b.bitangent.iter()).chain(b.color.iter()).chain(b.bone_weight.iter()).map(|x| x.to_bits()).collect();
+    fa == fb && a.bone_id == b.bone_id
+}
+
+/// Writes the handle's model; logs the bytes (only the first `head` bytes + the length for big files) and what
+/// parsing them gives.  For big geometry the only comparison the shim ever makes is this bit-exact echo test:
+/// the re-parsed vertices of (lod, part) equal the ones that were passed in.
+fn write_and_reparse(m: &MDL, echo: Option<(usize, usize, &[Vertex])>) -> Value {
+    let mut raw: Vec<u8> = vec![];
+    let w = guarded(|| {
+        let b = m.write_to_buffer();
+        let v = opt(b.as_ref(), |b| json!(b.len()));
+        raw = b.unwrap_or_default();
+        value(v)
+    });
     if w["outcome"] != "value" || w["v"]["some"] != true {
         return json!({"written": w, "reparsed": {"outcome": "skipped"}});
     }
-    let b = get_bytes(&w["v"]["v"]);
-    let r = guarded(|| value(opt(MDL::from_existing(&b), |m2| project(&m2, true))));
-    let wl = if log_bytes { w } else { json!({"outcome": "value", "v": {"some": true, "v": [], "len": b.len()}}) };
-    json!({"written": wl, "reparsed": r})
+    let big = raw.len() > 70000;
+    let head = if big { raw.len().min(20000) } else { raw.len() };
+    let wl = json!({"outcome": "value", "v": {"some": true, "v": bytes(&raw[..head]), "len": raw.len()}});
+    let mut echo_same = json!({"some": false});
+    let r = guarded(|| {
+        let m2 = MDL::from_existing(&raw);
+        if let (Some(m2), Some((lod, part, verts))) = (m2.as_ref(), echo) {
+            let ok = m2.lods.get(lod).and_then(|l| l.parts.get(part)).map(|p| {
+                p.vertices.len() == verts.len() && p.vertices.iter().zip(verts.iter()).all(|(a, b)| same_vertex(a, b))
+            }).unwrap_or(false);
+            echo_same = json!({"some": true, "v": ok});
+        }
+        value(opt(m2, |m2| project(&m2, !big)))
+    });
+    json!({"written": wl, "reparsed": r, "echo_same": echo_same})
 }
 
 pub fn run(st: &mut State, op: &str, cmd: &Value) -> Value {
@@ -102,12 +130,18 @@ pub fn run(st: &mut State, op: &str, cmd: &Value) -> Value {
         }
         "mdl.write" => {
             let Some(m) = st.mdl.models.get(&h) else { return json!({"outcome": "nohandle"}); };
-            write_and_reparse(m, true)
+            write_and_reparse(m, None)
         }
         "mdl.replace" => {
             let Some(m) = st.mdl.models.get_mut(&h) else { return json!({"outcome": "nohandle"}); };
             let (lod, part) = (geti(cmd, "lod") as usize, geti(cmd, "part") as usize);
-            let verts: Vec<Vertex> = cmd["vertices"].as_array().cloned().unwrap_or_default().iter().map(get_vertex).collect();
+            let verts: Vec<Vertex> = if let Some(t) = cmd.get("_template") {
+                // big geometry: nv vertices cycling through the template
+                let t: Vec<Vertex> = t.as_array().cloned().unwrap_or_default().iter().map(get_vertex).collect();
+                (0..geti(cmd, "nv") as usize).map(|i| t[i % t.len()]).collect()
+            } else {
+                cmd["vertices"].as_array().cloned().unwrap_or_default().iter().map(get_vertex).collect()
+            };
             let idx: Vec<u16> = cmd["indices"].as_array().cloned().unwrap_or_default().iter().map(|x| x.as_u64().unwrap_or(0) as u16).collect();
             let e = guarded(|| {
                 let mut subs = m.lods[lod].parts[part].submeshes.clone();
@@ -120,7 +154,11 @@ pub fn run(st: &mut State, op: &str, cmd: &Value) -> Value {
                 m.replace_vertices(lod, part, &verts, &idx, &subs);
                 value(json!(true))
             });
-            let mut r = write_and_reparse(m, true);
+            let mut r = if cmd.get("_template").is_some() {
+                write_and_reparse(m, Some((lod, part, &verts)))
+            } else {
+                write_and_reparse(m, None)
+            };
             r["edit"] = e;
             r
         }
@@ -130,7 +168,7 @@ pub fn run(st: &mut State, op: &str, cmd: &Value) -> Value {
                 m.remove_shape_meshes();
                 value(json!(true))
             });
-            let mut r = write_and_reparse(m, true);
+            let mut r = write_and_reparse(m, None);
             r["edit"] = e;
             r
         }
@@ -145,7 +183,7 @@ pub fn run(st: &mut State, op: &str, cmd: &Value) -> Value {
                                  geti(cmd, "part") as usize, &vals);
                 value(json!(true))
             });
-            let mut r = write_and_reparse(m, true);
+            let mut r = write_and_reparse(m, None);
             r["edit"] = e;
             r
         }
